@@ -5,6 +5,7 @@ package main
 
 import (
 	"fmt"
+	"os"
 	"go/token"
 	"go/types"
 	"sort"
@@ -16,6 +17,7 @@ import (
 )
 
 type VerifyOpts struct {
+	Thorough   bool
 	Safety     bool
 	SafetyTags []string
 	Locks      bool
@@ -187,6 +189,9 @@ func (vc *VC) atReturn(fr *Frame, n *Node, results []string, pos token.Pos) {
 				continue
 			}
 			j++
+			if hasTag(c.Tags, "T") && !vc.thorough {
+				continue // thorough tier only
+			}
 			lbl := fmt.Sprint(j)
 			if c.Label != "" {
 				lbl = c.Label
@@ -414,6 +419,7 @@ func (p *Prog) buildVC(fn *ssa.Function, opts VerifyOpts) (*VC, *Node, int) {
 		}
 		vc.lockOn, vc.lockTags = opts.Locks, opts.LockTags
 		vc.noAutoInline = opts.NoAutoInline
+		vc.thorough = opts.Thorough
 		vc.smokeOn = opts.Smoke
 		// pre-create the state variables discovered by earlier passes (so havocs cover them)
 		var names []string
@@ -494,6 +500,16 @@ func (p *Prog) buildVC(fn *ssa.Function, opts VerifyOpts) (*VC, *Node, int) {
 			break
 		}
 	}
+	if os.Getenv("KVC_DEBUG") != "" {
+		for k, m := range loopMods {
+			var names []string
+			for v := range m {
+				names = append(names, v)
+			}
+			sort.Strings(names)
+			fmt.Fprintf(os.Stderr, "loop %s modifies %v\n", k, names)
+		}
+	}
 	// anchors: every loop contract and ghost statement must have been used
 	if fc := p.contracts[fn]; fc != nil {
 		nloops := len(loopHeads(fn))
@@ -551,39 +567,89 @@ func (p *Prog) VerifyFunc(fn *ssa.Function, opts VerifyOpts) *FuncResult {
 			sel[ob] = true
 		}
 		q := vc.Query(sel, entry, false, "")
-		r := runSolvers(q, timeout, opts.Seed, fr.Key+" [all]")
+		jt := timeout
+		if jt > 8 {
+			jt = 8
+		}
+		r := runSolversFast(q, jt, opts.Seed, fr.Key+" [all]")
 		if r.Status == "unsat" {
 			for _, ob := range real {
 				results[ob] = &OblResult{Ob: ob, Status: "proved", Solver: r.Solver, Seconds: r.Seconds / float64(len(real)), Detail: "joint query: " + r.Detail, SMTSize: len(q)}
 			}
 		} else {
+			// second attempt: the obligations of one location (node / loop edge) together; only groups that are
+			// not proved are split into single-obligation queries
 			var wg sync.WaitGroup
 			var mu sync.Mutex
+			groups := map[string][]*Obligation{}
+			var order []string
 			for _, ob := range real {
-				ob := ob
+				if _, ok := groups[ob.Loc]; !ok {
+					order = append(order, ob.Loc)
+				}
+				groups[ob.Loc] = append(groups[ob.Loc], ob)
+			}
+			single := func(ob *Obligation) {
+				defer wg.Done()
+				q := vc.Query(map[*Obligation]bool{ob: true}, entry, true, "")
+				r := runSolvers(q, timeout, opts.Seed, fr.Key+" "+ob.Name)
+				// escalation before reporting undecided: other seeds change the instantiation order
+				for extra := 1; extra <= 3 && r.Status == "unknown" && !strings.Contains(r.Detail, ":error:"); extra++ {
+					r2 := runSolvers(q, timeout, opts.Seed+extra*7919, fr.Key+" "+ob.Name)
+					r2.Detail = r.Detail + " || retry: " + r2.Detail
+					r = r2
+				}
+				or := &OblResult{Ob: ob, Solver: r.Solver, Seconds: r.Seconds, Detail: r.Detail, SMTSize: len(q)}
+				switch r.Status {
+				case "unsat":
+					or.Status = "proved"
+				case "sat":
+					or.Status = "refuted"
+					or.Model = r.Model
+				case "inconsistent":
+					or.Status = "inconsistent"
+				default:
+					or.Status = "undecided"
+					if strings.Contains(r.Detail, ":error:") {
+						or.Status = "solver-error"
+					}
+				}
+				mu.Lock()
+				results[ob] = or
+				mu.Unlock()
+			}
+			for _, loc := range order {
+				obs := groups[loc]
 				wg.Add(1)
 				go func() {
-					defer wg.Done()
-					q := vc.Query(map[*Obligation]bool{ob: true}, entry, true, "")
-					r := runSolvers(q, timeout, opts.Seed, fr.Key+" "+ob.Name)
-					or := &OblResult{Ob: ob, Solver: r.Solver, Seconds: r.Seconds, Detail: r.Detail, SMTSize: len(q)}
-					switch r.Status {
-					case "unsat":
-						or.Status = "proved"
-					case "sat":
-						or.Status = "refuted"
-						or.Model = r.Model
-					case "inconsistent":
-						or.Status = "inconsistent"
-					default:
-						or.Status = "undecided"
-						if strings.Contains(r.Detail, ":error:") {
-							or.Status = "solver-error"
-						}
+					if len(obs) == 1 {
+						single(obs[0])
+						return
 					}
-					mu.Lock()
-					results[ob] = or
-					mu.Unlock()
+					sel := map[*Obligation]bool{}
+					for _, ob := range obs {
+						sel[ob] = true
+					}
+					q := vc.Query(sel, entry, false, "")
+					gt := timeout
+					if gt > 6 {
+						gt = 6
+					}
+					r := runSolversFast(q, gt, opts.Seed, fr.Key+" [group "+obs[0].Loc+"]")
+					if r.Status == "unsat" {
+						mu.Lock()
+						for _, ob := range obs {
+							results[ob] = &OblResult{Ob: ob, Status: "proved", Solver: r.Solver, Seconds: r.Seconds / float64(len(obs)), Detail: "group query: " + r.Detail, SMTSize: len(q)}
+						}
+						mu.Unlock()
+						wg.Done()
+						return
+					}
+					for _, ob := range obs[1:] {
+						wg.Add(1)
+						go single(ob)
+					}
+					single(obs[0])
 				}()
 			}
 			wg.Wait()
